@@ -130,6 +130,8 @@ type zzHist struct {
 	label     string
 	target    string // task named in dry runs
 	sibling   bool   // the Taskfile of this step has the all/lint tasks
+	instances bool   // label and sources depend on the call variable T
+	inst      string // value of T in this step
 	exit      map[string]uint8
 	ran       []string // probes started in the current step
 }
@@ -139,6 +141,10 @@ func (h *zzHist) taskfile() *ast.Taskfile {
 	t := &ast.Task{Task: "build", Label: h.label, Location: &ast.Location{Taskfile: h.p.path("Taskfile.yml")}, Vars: ast.NewVars(), Env: ast.NewVars(),
 		Dir:     h.p.root,
 		Sources: []*ast.Glob{{Glob: "*.src"}, {Glob: "skip.src", Negate: true}},
+	}
+	if h.instances {
+		t.Label = "build-{{.T}}"
+		t.Sources = []*ast.Glob{{Glob: "{{.T}}.src"}}
 	}
 	if h.hasGen {
 		t.Generates = []*ast.Glob{{Glob: "out"}}
@@ -289,7 +295,12 @@ func (h *zzHist) step(k int, mode int, yes bool, failCmd int) zzStepResult {
 	var err error
 	switch mode {
 	case zzModeRun:
-		err = e.Run(context.Background(), &Call{Task: "build"})
+		call := &Call{Task: "build"}
+		if h.instances {
+			call.Vars = ast.NewVars()
+			call.Vars.Set("T", ast.Var{Value: h.inst})
+		}
+		err = e.Run(context.Background(), call)
 	case zzModeSibling:
 		err = e.Run(context.Background(), &Call{Task: "all"})
 	case zzModeForce:
@@ -483,6 +494,58 @@ func ZZ_H_History() {
 				zz.Assert(!r.changed, "query-leaves-the-project-tree-unchanged/"+tag)
 			}
 			last = zzModeNames[mode]
+		}
+	}
+	if zz.Twin() {
+		zz.Assert(false, "twin")
+	}
+	zz.Reach("end")
+}
+
+// ZZ_H_Instances: a task whose label and sources depend on a call variable is run
+// for two values in an arbitrary order: the fingerprint state of one instance must
+// neither make another instance skip its first run nor force a needless re-run.
+func ZZ_H_Instances() {
+	h := &zzHist{p: zzNewProject()}
+	if zz.Native() {
+		defer os.RemoveAll(h.p.root)
+	}
+	methods := []string{"checksum", "timestamp"}
+	h.method = methods[zz.Choose("method", 2)]
+	h.instances = true
+	same := zz.Bool("same_content")
+	h.p.put("a.src", "v0")
+	if same {
+		h.p.put("b.src", "v0")
+	} else {
+		h.p.put("b.src", "w0")
+	}
+	insts := []string{"a", "b"}
+	version := map[string]int{"a": 0, "b": 0}
+	okVersion := map[string]int{"a": -1, "b": -1}
+	steps := zz.Param("steps", 3)
+	for k := 0; k < steps; k++ {
+		inst := insts[zz.Choose(fmt.Sprintf("instance%d", k), 2)]
+		if k > 0 && zz.Bool(fmt.Sprintf("edit%d", k)) {
+			version[inst]++
+			h.p.put(inst+".src", fmt.Sprintf("v%d-%s", version[inst], inst))
+		}
+		h.inst = inst
+		allowedSkip := okVersion[inst] == version[inst]
+		r := h.step(k, zzModeRun, true, -1)
+		skipped := !r.started && r.err == nil
+		if skipped {
+			zz.Assert(allowedSkip, "instance/skip-only-after-its-own-successful-run/"+h.method)
+		}
+		if allowedSkip {
+			zz.Assert(skipped, "instance/unchanged-instance-is-skipped/"+h.method)
+		}
+		if !skipped {
+			if r.complete {
+				okVersion[inst] = version[inst]
+			} else {
+				okVersion[inst] = -1
+			}
 		}
 	}
 	if zz.Twin() {
